@@ -198,7 +198,36 @@ def vo_target(mod):
     return mod.replace("GV.", "", 1).replace(".", "/") + ".vo"
 
 
+class _Slot:
+    """One of NCPU machine-wide slots (file locks under .build/slots): bounds the number of coqc
+    processes that all concurrently running checks start, whatever their own thread pools do."""
+    def __enter__(self):
+        import fcntl, random
+        d = os.path.join(BUILD, "slots")
+        os.makedirs(d, exist_ok=True)
+        while True:
+            order = list(range(NCPU))
+            random.shuffle(order)
+            for k in order:
+                f = open(os.path.join(d, "coqc.%d" % k), "w")
+                try:
+                    fcntl.flock(f, fcntl.LOCK_EX | fcntl.LOCK_NB)
+                    self.f = f
+                    return self
+                except OSError:
+                    f.close()
+            time.sleep(0.2 + random.random() * 0.3)
+
+    def __exit__(self, *a):
+        self.f.close()
+
+
 def coqc_file(path, timeout=900):
+    with _Slot():
+        return _coqc_file(path, timeout)
+
+
+def _coqc_file(path, timeout=900):
     rc, out = sh("timeout %d coqc -noglob -Q %s GV -w -notation-overridden %s" % (timeout, COQ, path), cwd=os.path.dirname(path),
                  timeout=timeout + 30)
     return rc, out
